@@ -27,8 +27,9 @@ class C19(core.Check):
                   "k-th queued request — own reply key or the key carried by the first hop of its history), entry_carries_request (an entry with key k holds exactly the k-th "
                   "request; a history's first hop was drawn by the k-th request's path), one_entry_each_partial (a run that ended idle has exactly one entry per request), "
                   "redirect_history_attached (history = only redirect responses consumed for that request, in order; a non-error entry is never itself a redirect), "
-                  "https_to_http_refused / https_client_only_tls / refusal_is_terminal (once on https the client stays on https, every later request goes over TLS, the "
-                  "refusal ends the run; refusal_witness shows it happens).  one_entry_each is _partial: a response cut short after some body bytes never completes "
+                  "https_to_http_refused / https_client_only_tls (once on https the client stays on https and every later request goes over TLS), "
+                  "refused_redirect_is_reported (a redirect from https to http puts nothing on the wire and yields exactly one errored entry whose history ends with that "
+                  "redirect — behaviour of the tree after the F49 repair; refusal_witness shows it happens and the queue moves on).  one_entry_each is _partial: a response cut short after some body bytes never completes "
                   "(truncated_response_sticks, recorded as C19-K1).  closed_connection_yields_error_entries pins the repaired F51 behaviour. "
                   "The model is tied to clienting.py by a seeded differential run (entries, wire log, waited, queue length); the redirect status set is re-extracted by probing.")
     level_note = ("Trusted: Lean kernel + propext/Classical.choice/Quot.sound; message-level abstraction of the byte stream (response parsing is C13/C17's), "
@@ -42,7 +43,7 @@ class C19(core.Check):
                     "translator harness/extract/httpflow.py (redirect status set probed from Respondent.parseHead over every 3-digit code)",
                     "oracle: the scripted servers' own wire log and served-response log"]
     assumptions = ["responses are well-formed HTTP (malformed input is C16's); hosts are literal 127.0.0.1 (no DNS)",
-                   "the https->http refusal is observed as the ValueError the code raises (F49 is C16's)"]
+                   "the https->http refusal is observed as an errored entry for the redirect response with the history attached and no hop on the wire (tree after the F49 repair)"]
 
     def extract(self):
         return xhf.extract()
@@ -184,11 +185,6 @@ class C19(core.Check):
             bad.append("one-at-a-time")
         if secure and (insecure_bytes or any(not w[1] for w in wire)):
             bad.append("https-to-http-not-refused")
-        for i, (w, sv) in enumerate(zip(wire, served)):
-            never_complete = sv[3] == 3 and len(sv[2]) > 0       # cut short by the server: the redirect is never seen as a whole (C19-K1)
-            if w[1] and sv[0] in REDIRECTS and sv[1] is not None and not sv[1][0] and not never_complete and (i != len(wire) - 1 or outcome != "refused"):
-                bad.append("https-to-http-not-refused")
-                break
         groups = self._walk(case, obs)
         # transmitted in queue order, as queued
         order = [k for k, _ in sorted(groups.items(), key=lambda kv: kv[1][0])]
@@ -200,15 +196,9 @@ class C19(core.Check):
             if w[2] != m or w[4] != (b"" if m == b"GET" else b):
                 bad.append("transmitted-request-differs")
                 break
-        if outcome == "crashed":
+        if outcome != "running":        # since F49 was repaired nothing is raised out of Client.service() any more
             bad.append("exception-escaped:" + str(raised))
             return bad
-        refusal_ok = False
-        if outcome == "refused":
-            last = served[-1] if served else None
-            refusal_ok = bool(wire and wire[-1][1] and last and last[0] in REDIRECTS and last[1] is not None and not last[1][0])
-            if not refusal_ok:
-                bad.append("refused-without-cause")
         # entries: one per request, in order, carrying the originating request
         for k, e in enumerate(ents):
             status, body, errored, tag, method, path, rbody, hist = e
@@ -239,6 +229,11 @@ class C19(core.Check):
             for a, i in zip(chain[:-1], idx[1:]):
                 if (wire[i][0], wire[i][1], wire[i][3]) != (a[1][1], a[1][0], a[1][2]):
                     bad.append("redirect-target-differs")
+                    break
+            # a redirect received over TLS that points to http must not be followed at all
+            for a, i in zip(chain[:-1], idx[:-1]):
+                if wire[i][1] and not a[1][0]:
+                    bad.append("https-to-http-not-refused")
                     break
             if followed:
                 # the last response on the wire for k was itself a redirect whose hop never reached a server (dead / unknown target): errored entry with full history
